@@ -10,7 +10,7 @@ use crate::{
     conv,
     ext::{compext as x, tasks as t},
     rng::Rng,
-    sexp::{Sexp, a, l, s, tagged},
+    sexp::{Sexp, a, l, tagged},
 };
 use anthem::{
     syntax_tree::fol::sigma_0 as fol,
